@@ -21,6 +21,7 @@ DECIDED = [
     "R-C14-REDELIVER: the only call sites that make a held message deliverable again (reject, requeue) are the processor's ladder, the runner's cancel/limit path, the Message API, "
     "consumer shutdown and Redis maintenance; the runner cancels the processing task before returning its message; maintenance rejects only after the execution timeout",
     "R-C14-TAKE (bounce): a RabbitMQ delivery that was bounced is not also registered / handed to the local queue",
+    "R-C14-REDELIVER (finish): C03's finish rules reused - every prefetched message is returned individually by its own tag",
 ]
 NOT_DECIDED = ["cross-process interleavings as such", "RabbitMQ's server-side exclusive delivery of unacked messages (trusted)"]
 ASSUMPTIONS = ["asyncio atomicity between awaits (single process)", "Redis MULTI/EXEC atomicity"]
